@@ -3,14 +3,16 @@ from harness.gen import texts as T
 
 FORMAT = 'https://www.debian.org/doc/packaging-manuals/copyright-format/1.0/'
 HOLDERS = ['Jane Doe', 'ACME Inc.', 'The  Foo   Authors', 'J. R. <j@r.org>', 'Ünï Cödé', 'a', 'Free Software Foundation, Inc.',
-           'Jane Doe <jane@x.org> (release manager)', 'A <a@b.c>, B <b@c.d>', '(c) 2012 Foo', 'Copyright (c) 2012 Foo', '2003 The Authors', '3 Guys Software']
+           'Jane Doe <jane@x.org> (release manager)', 'A <a@b.c>, B <b@c.d>', '(c) 2012 Foo', 'Copyright (c) 2012 Foo', '2003 The Authors', '3 Guys Software',
+           # display names as mail programs quote them
+           '"Doe, Jane" <jane@x.org>', '"J \\"Q\\" Doe" <j@q.org>', 'Jane (home) <j@home.net>', '=?utf-8?q?J=C3=BCrgen?= <j@x.de>', "O'Neil <o@n.ie>", 'a\\b <a@b>']
 YEARS = ['2019', '2001-2019', '1999,2001', '2001-2005,', '(2010)', '2010-', '1995-1996,1998',
          # year lists of any length are one word as long as they hold no blank
          ','.join(str(y) for y in range(1980, 1987)), ','.join(str(y) for y in range(1970, 2024)), '1990-1995,1997-2001,2003,2005-2011,2013,2015-2022',
          '1' * 31, '1' * 32, '1' * 33, '2' * 64, '1999' + ',2000' * 60]
 NONYEARS = ['Copyright', '(c)', 'c2019', '2019a', 'by']
 SHORT = ['GPL-2+', 'MIT', 'Apache-2.0', 'GPL-2+ or MIT', 'BSD-3-clause', 'public-domain', 'LGPL-2.1+ with exception']
-TOKENS = ['*', 'src/*', 'debian/*', 'foo.c', 'a/b/c.h', '*.txt', 'doc/?.md']
+TOKENS = ['*', 'src/*', 'debian/*', 'foo.c', 'a/b/c.h', '*.txt', 'doc/?.md', 'attic/main.c,', 'a,b', ',', 'x;', '[ab].c', 'dir\\*', '"q"']
 EXTRA_NAMES = ['X-Foo', 'Origin', 'Bar', 'X-Comment-2', 'Notes', 'Extra-Data', 'Line-Numbers-By-Field', 'X-Licence', 'Sublicence']
 WORDS = [w for w in T.WORDS if not w.startswith('.')]
 
